@@ -372,6 +372,26 @@ def run_shard(shard: Dict[str, Any], rep: Report) -> None:
     except Exception as e:
         viol("static_argument_jit_raises", {"error": repr(e)[:300]})
 
+    # ---- 2d. one state stepped twice inside a single trace ---------------------------------------------------------------
+    # (an expansion `[env.step(s, a) for a in actions]` inside one jitted function: a step that writes into its argument would
+    # hand the second call a modified state, although every separately jitted call is unaffected)
+    try:
+        twice = jax.jit(lambda s_, a_, b_: (env.step(s_, a_), env.step(s_, b_), env.step(s_, a_)))
+        for idx in range(0, len(calls) - 1, max(1, (len(calls) - 1) // 4)):
+            (s0, a, tag, _), (_, b, tag_b, _) = calls[idx], calls[idx + 1]
+            aj, bj = A.as_action(runner.spec, a), A.as_action(runner.spec, b)
+            r1, r2, r3 = twice(s0, aj, bj)
+            e1, e2 = runner.step(s0, a), runner.step(s0, b)
+            rep.evaluated(3)
+            rep.count("same_state_twice_in_one_trace")
+            for got, exp, nm in ((r1, e1, "first"), (r2, e2, "second"), (r3, e1, "third (repeat of the first)")):
+                bad = tree_diff(dec_pair(*got), dec_pair(*exp), exact=False, rtol=1e-5, atol=1e-6)
+                if bad:
+                    viol("same_state_stepped_twice_in_one_trace", {"call": tag, "which": nm, "fields": bad[:6]})
+                    break
+    except Exception as e:
+        viol("same_state_twice_in_one_trace_raises", {"error": repr(e)[:300]})
+
     # constructor arguments shared by both instances (NumPy databases, maze lists) must still hold what the caller put in
     if E.shared_args_count():
         rep.evaluated(1)
